@@ -587,6 +587,18 @@ def rule_J5(ctx) -> None:
         ("optional Duration set to zero", "message", {A(META, "wraps"): None, A(META, "optional"): True, A(META, "group"): None},
          {CALL(N("isinstance"), VALUE, N("timedelta")): True, "$zero": "timedelta(0)"}),
     ]
+    # selected oneof members at their default value: the wire carries them (dump emits the selected member whatever it holds)
+    eqdef = ("op", "==", VALUE, CALL(A(SELF, "_get_field_default"), FIELD_NAME))
+    sel = {A(META, "wraps"): None, A(META, "optional"): False, A(META, "group"): "g"}
+    scenarios += [
+        ("oneof Timestamp member selected at the epoch", "message", dict(sel), {INCL: True, CALL(N("isinstance"), VALUE, N("datetime")): True, "$zero": "DATETIME_ZERO", "$selected": True}),
+        ("oneof Duration member selected at zero", "message", dict(sel), {INCL: True, CALL(N("isinstance"), VALUE, N("timedelta")): True, "$zero": "timedelta(0)", "$selected": True}),
+        ("oneof enum member selected at 0", "enum", dict(sel), {INCL: True, VALUE: False, eqdef: True, "$selected": True}),
+        ("oneof int32 member selected at 0", "int32", dict(sel), {INCL: True, VALUE: False, eqdef: True, "$selected": True}),
+        ("oneof string member selected at ''", "string", dict(sel), {INCL: True, VALUE: False, eqdef: True, "$selected": True}),
+        ("oneof bool member selected at false", "bool", dict(sel), {INCL: True, VALUE: False, eqdef: True, "$selected": True}),
+        ("oneof sub-message member selected, empty", "message", dict(sel), {INCL: True, VALUE: False, A(VALUE, "_serialized_on_wire"): False, eqdef: True, "$selected": True}),
+    ]
     for sname, t, binds, atoms in scenarios:
         b = dict(type_binding(t))
         b.update(binds)
@@ -595,6 +607,7 @@ def rule_J5(ctx) -> None:
         assume = dict(base)
         atoms = dict(atoms)
         zero = atoms.pop("$zero", None)
+        selected = atoms.pop("$selected", False)
         assume.update(atoms)
         paths = interp_for(mod, bindings=b, assume=assume, inline=_small_helpers(mod, fn, ENC_CLASSES)).run(fn)
         ctx.count(len(paths))
@@ -610,7 +623,8 @@ def rule_J5(ctx) -> None:
         missing = [p for p in paths if p.outcome != "raise" and not any(
             e.kind == "store" and e.data[0][0] == "sub" and e.data[0][1][0] in ("dictd", "n") and e.loops for e in p.events)]
         # the value differs from the field default (None) in these scenarios
-        missing = [p for p in missing if p.valuation.get(("op", "==", VALUE, CALL(A(SELF, "_get_field_default"), FIELD_NAME))) is not True]
+        if not selected:
+            missing = [p for p in missing if p.valuation.get(("op", "==", VALUE, CALL(A(SELF, "_get_field_default"), FIELD_NAME))) is not True]
         name = f"to_dict:{sname}"
         if missing:
             ctx.refuted("J5", name, val_text(missing[0].valuation)[:100], mod.loc(fn),
@@ -641,16 +655,21 @@ def rule_J6b(ctx, rule: str = "J6") -> None:
             # a bool key is not a str: paths that decided otherwise are infeasible for this key kind
             if kt != "string" and any(v for k, v in p.valuation.items() if k[0] == "call" and k[1] == N("isinstance") and len(k[2]) == 2 and k[2][1] == N("str") and "items()" in show(k[2][0])):
                 continue
+            key_terms = []
             for e in p.events:
                 if e.kind == "store" and e.data[0][0] == "sub" and e.loops and len(e.loops) >= 2:
-                    k = e.data[0][2]
-                    n += 1
-                    if any(dotted(c[1]) in ("str", "repr", "format") for c in calls(k)) or k[0] == "fstr":
-                        keys.add("str")
-                    elif any(t[0] == "c" and t[1] in ("true", "false") for t in walk(k)) or any(dotted(c[1]).endswith("dumps") for c in calls(k)):
-                        keys.add("json")
-                    else:
-                        keys.add("identity")
+                    key_terms.append(e.data[0][2])
+                elif e.kind == "store" and e.data[0][0] == "sub" and e.loops:
+                    # the map built by a dict comprehension and stored as a whole
+                    key_terms += _key_exprs(e.data[1])
+            for k in key_terms:
+                n += 1
+                if any(dotted(c[1]) in ("str", "repr", "format") for c in calls(k)) or k[0] == "fstr":
+                    keys.add("str")
+                elif any(t[0] == "c" and t[1] in ("true", "false") for t in walk(k)) or any(dotted(c[1]).endswith("dumps") for c in calls(k)):
+                    keys.add("json")
+                else:
+                    keys.add("identity")
         name = f"to_dict[map-key:{kt}]"
         if not n:
             ctx.inconclusive(rule, name, "no store into a map output found", mod.loc(fn))
